@@ -20,6 +20,25 @@ CLAIMS = {
   "Not decided: progress as observed at run time, blocking inside the standard library, user handlers/middleware/resolvers (analysis boundary, listed in evidence). "
   "Trusted: go/types + go/ssa + CHA call resolution of x/tools v0.50.0; no reflection/unsafe/linkname in the module.",
   "DESIGN.md section 5 C06"),
+ "C04": (
+  "typestate / dominance analysis over SSA (guards, settle-exactly-once path sets, must-dataflow for deferred aborts) plus call-graph reachability",
+  "Decides on every path of the protocol functions: the atomic pointer is stored only by the constructor and by Txn.Commit (once, guarded, with the tree the transaction built); "
+  "Commit and Abort settle exactly once past their guards (rootTxn cleared, one Unlock) and do nothing when stopped by a guard; every managed write transaction has an Abort "
+  "deferred on every exit including panic, registered before anything can panic; Commit is control-dependent on the nil error of the operation; every Txn method has the settled "
+  "guard and every mutator call the read-only guard (exhaustive over the method set from go/types); uncommitted state never touches the published pointer. "
+  "These are necessary structural conditions of atomicity/isolation ('none of them visible, ever' after abort/error/panic; 'refuses further use'); with C03 and C05 they give the "
+  "single-immutable-tree-per-reader argument.",
+  "Not decided: what concurrent readers observe at run time; correctness of what a transaction writes (C02). Trusted: go/ssa CFG/dominators; Txn used by one goroutine (documented).",
+  "DESIGN.md section 5 C04"),
+ "C05": (
+  "dominance / must-pass-through on the lock-load-store-unlock sites, who-may-write over Router/iTree fields, path-set typestate for pooled contexts, slice-ownership analysis for append",
+  "Decides the ordering and ownership conditions the property calls 'misplaced load, store or unlock': Lock before the load that seeds a write transaction; Store before Unlock; at most "
+  "one load of the published tree per path and none in a loop (through callees); contexts go back to the pool of the tree they came from; Router and iTree fields are written only during "
+  "construction; every pooled context is released exactly once or handed to the caller and never used after release; no append extends a slice whose backing array is shared with "
+  "another object (the NewRoute/Router.mws race). Each is a necessary condition of race-freedom for some schedule.",
+  "Not decided: linearizability of observed histories, lost/duplicated commits as observed, absence of panics (need executions). Assumes published trees are immutable (C03) and the "
+  "documented happens-before of sync/atomic and sync.Mutex.",
+  "DESIGN.md section 5 C05"),
 }
 
 NOT_APPLICABLE = {
